@@ -14,7 +14,7 @@
 void sh_run(void* (*mainfn)(void*), void* arg);
 void trap(Trap t) { printf("{\"ev\":\"trap\",\"code\":%d}\n", (int)t); fflush(stdout); _Exit(3); }
 static wasmMemory* mem;
-static char* scripts[16]; static int nscripts;
+static char* scripts[64]; static int nscripts;
 
 static void* worker(void* arg) {
     char* s = strdup((char*)arg), *op, *save = NULL;
@@ -55,7 +55,7 @@ static void* worker(void* arg) {
 }
 
 static void* mainthread(void* arg) {
-    WASM_THREAD_TYPE th[16]; int i; (void)arg;
+    WASM_THREAD_TYPE th[64]; int i; (void)arg;
     mem = WASM_MEMORY_ALLOCATE_SHARED(1, 1);
     for (i = 0; i < nscripts; i++) WASM_THREAD_CREATE(&th[i], worker, scripts[i]);
     for (i = 0; i < nscripts; i++) WASM_THREAD_JOIN(th[i]);
